@@ -150,6 +150,22 @@ func registerIntrinsics(ex *Executor) {
 	I["@verifParBegin"] = parBegin
 	I["@verifParMid"] = parMid
 	I["@verifParEnd"] = parEnd
+	// EO harness intrinsics: outside EO extraction they are inert
+	I["@verifEvent"] = func(ex *Executor, st *State, cc *CallCtx, args []Val) (Val, ctl) { return nil, cNext }
+	I["@verifNodeOutcome"] = func(ex *Executor, st *State, cc *CallCtx, args []Val) (Val, ctl) {
+		v := smt.Var(fmt.Sprintf("nd%d_%s", len(st.ND), "int"), smt.Int)
+		st.ND = append(st.ND[:len(st.ND):len(st.ND)], NDRec{Kind: "int", T: v})
+		st.addPC(smt.Ge(v, smt.IntC(0)))
+		st.addPC(smt.Le(v, smt.IntC(3)))
+		return v, cNext
+	}
+	I["@verifCtxErrSet"] = func(ex *Executor, st *State, cc *CallCtx, args []Val) (Val, ctl) { return smt.False, cNext }
+	I["@verifCtxDoneChan"] = func(ex *Executor, st *State, cc *CallCtx, args []Val) (Val, ctl) {
+		if ex.eo != nil {
+			ex.eo.ctxDone[chanID(args[0])] = true
+		}
+		return nil, cNext
+	}
 	I["@verifBackground"] = func(ex *Executor, st *State, cc *CallCtx, args []Val) (Val, ctl) {
 		return nil, cNext
 	}
